@@ -164,9 +164,9 @@ func build(pl Plan) (*built, error) {
 	pendingListeners := map[string][]int{}
 	names := func(toks []string) string {
 		var n []string
-		for _, t := range toks {
+		for i, t := range toks {
 			if len(t) > 1 && t[0] == '$' {
-				n = append(n, t)
+				n = append(n, t+"@"+strconv.Itoa(i))
 			}
 		}
 		return strings.Join(n, ",")
